@@ -519,6 +519,7 @@ func Main(args []string) int {
 	defs.InputFlushInterval = 30 * time.Millisecond
 	defs.IntermediateChannelTimeout = 2 * time.Second
 	defs.BufferShutDownTimeout = 3 * time.Second
+	defs.ForwarderMaxPendingChunksForAck = 3 // a small ACK window, so that a silent upstream soon blocks the sender on it
 	f, err := os.Open(*scriptsPath)
 	if err != nil {
 		fmt.Fprintln(os.Stderr, err)
